@@ -172,7 +172,7 @@ theorem strerror_s_accs (cfg : Cfg) (dest dmax errnum : Nat) (db : Bos) (msg dot
   · rename_i h3
     have hcp : AccS R (Cells dest dmax) d' (strncpy_s cfg dest dmax msg (dmax - 4) none none) (fun _ _ => True) := by
       unfold strncpy_s
-      exact strncpyG_accs _ cfg dest dmax msg (dmax-4) none none (fun _ _ h => by cases h) (fun _ => hmsg hd _) hrd
+      exact strncpyG_accs _ cfg dest dmax msg (dmax-4) none none (fun _ _ _ h => by cases h) (fun _ => hmsg hd _) hrd
         (fun _ a h => h)
     refine AccS.bind (hcp.frame.mono (fun _ h => h) (hw hd)) (fun _ d'' ⟨_, hfr⟩ => ?_)
     refine AccS.bind (Q := fun _ _ => True) ?_ (fun _ _ _ => AccS.pure _ trivial)
